@@ -3,6 +3,7 @@
 A program is a dict of flat tables (see spec/MiniPy.tla).  Rendering puts one statement per line,
 so a line number identifies a node; `render` returns the source and the line -> node map.
 """
+import os
 import sys
 import json
 import random
@@ -63,8 +64,16 @@ class Builder:
         return finish_program(dict(nodes=self.nodes, exprs=self.exprs, fns=self.fns))
 
 
+TRIP_CAP = 2      # = MaxTrip of the exploration bounds: decision slots reserved per comprehension element
+
+
 def ndecisions(p, e):
+    """Decision slots an evaluation of expression e can consume (an upper bound)."""
     x = p['exprs'][e - 1]
+    if x['kind'] == 'lamv':       # creating a lambda evaluates nothing
+        return 0
+    if x['kind'] == 'comp':       # the iterable once, condition and element once per item
+        return ndecisions(p, x['args'][0]) + TRIP_CAP * sum(ndecisions(p, a) for a in x['args'][1:])
     n = 1 if x['kind'] in ('D', 'I') else 0
     return n + sum(ndecisions(p, a) for a in x['args'])
 
@@ -87,8 +96,12 @@ def binds(p, fid):
 
 def finish_program(p):
     """Fill derived fields: nch per node, legal nonlocal declarations, names table, lexical ancestors."""
+    # a call statement may call a lambda value: its body is evaluated by the calling node
+    maxlam = max([ndecisions(p, x['args'][0]) for x in p['exprs'] if x['kind'] == 'lamv'] or [0])
     for d in p['nodes']:
         d['nch'] = ndecisions(p, d['e']) if d['e'] else 0
+        if d['kind'] == 'call':
+            d['nch'] = maxlam
     for fid in range(2, len(p['fns']) + 1):
         f = p['fns'][fid - 1]
         keep = []
@@ -165,11 +178,107 @@ def blocks_of(p, n):
 
 
 # ------------------------------------------------------------------ random generation
+CONTEXTS = os.environ.get('VERIF_CONTEXTS', '1') != '0'
+
+
+class Contexts:
+    """Expression contexts of the class: lambda bodies, comprehension elements and conditions, default values and
+    decorators of nested functions, lambdas kept in variables and called later (shared by both generators)."""
+
+    def __init__(self, rnd, names):
+        self.r = rnd
+        self.names = list(names)
+        self.lams = {}          # function id -> names (h0 / h1) that were assigned a lambda in it
+
+    def simple(self, b, scope, decisions=True):
+        """A small element / body expression (at most one decision)."""
+        r = self.r
+        rd = lambda: [r.choice(scope) for _ in range(r.randint(0, 2))]
+        q = r.random()
+        if q < 0.55 or not decisions:
+            if q < 0.1:
+                return b.expr(kind=r.choice(['and', 'or']), args=[b.T(rd()), b.T(rd())])
+            return b.T(rd())
+        if q < 0.85:
+            return b.expr(kind='ifexp', args=[b.D(rd()), b.T(rd()), b.T(rd())])
+        if q < 0.93:
+            return b.expr(kind='not', args=[b.D(rd())])
+        return b.expr(kind=r.choice(['and', 'or']), args=[b.D(rd()), b.T(rd())])
+
+    def bound(self, default):
+        # mostly a fresh name; sometimes one that shadows a variable of the function
+        return self.r.choice(self.names) if self.r.random() < 0.25 else default
+
+    def value(self, b, scope):
+        """An expression that evaluates user constructs in a nested expression scope."""
+        r = self.r
+        q = r.random()
+        if q < 0.2:
+            return b.expr(kind='lam', name='', args=[self.simple(b, scope)])
+        if q < 0.5:
+            nm = self.bound('p')
+            arg = b.T([r.choice(scope)]) if r.random() < 0.7 else b.expr(kind='name', name=r.choice(scope))
+            return b.expr(kind='lam', name=nm, args=[self.simple(b, scope + [nm] * 2), arg])
+        nm = self.bound('c')
+        it = b.I([r.choice(scope) for _ in range(r.randint(0, 1))])
+        if nm in self.names:
+            # A target that shadows a variable of the function: the element stays free of constructs the converter wraps
+            # in lambdas.  CPython 3.12.1 miscompiles an inlined comprehension whose target is captured by a nested lambda
+            # while the same name is declared nonlocal in the enclosing function (the assignment of the result is lost);
+            # the generated code is correct Python there, the interpreter is not (DESIGN.md, deviations).
+            elt = b.T([r.choice(scope + [nm] * 2) for _ in range(r.randint(0, 2))])
+            if r.random() < 0.35:
+                return b.expr(kind='comp', name=nm, args=[it, elt, b.D([nm])])
+            return b.expr(kind='comp', name=nm, args=[it, elt])
+        if r.random() < 0.35:
+            return b.expr(kind='comp', name=nm, args=[it, self.simple(b, scope + [nm] * 2, False), b.D([nm])])
+        return b.expr(kind='comp', name=nm, args=[it, self.simple(b, scope + [nm] * 2)])
+
+    def lambda_stmt(self, b, fn, scope):
+        """h0 = lambda: BODY  /  h1 = lambda p: BODY"""
+        r = self.r
+        if r.random() < 0.4:
+            nm, e = 'h0', b.expr(kind='lamv', name='', args=[self.simple(b, scope)])
+        else:
+            pn = self.bound('p')
+            nm, e = 'h1', b.expr(kind='lamv', name=pn, args=[self.simple(b, scope + [pn] * 2)])
+        self.lams.setdefault(fn, set()).add(nm)
+        return b.node(kind='assign', fn=fn, tgt=[nm], e=e)
+
+    def callable_lams(self, b, fn):
+        out = set()
+        q = fn
+        while q:
+            out |= self.lams.get(q, set())
+            q = b.fns[q - 1]['parent']
+        return sorted(out)
+
+    def lambda_call(self, b, fn, scope, allow_return=True):
+        r = self.r
+        nm = r.choice(self.callable_lams(b, fn))
+        form = r.choice(['assign', 'assign', 'expr'] + (['return'] if allow_return else []))
+        return b.node(kind='call', fn=fn, name=nm, form=form, args=[r.choice(scope)] if nm == 'h1' else [],
+                      tgt=[r.choice(self.names)] if form == 'assign' else [])
+
+    def decorate_def(self, b, node, scope):
+        """Give the nested function of a def node a decorator and / or a parameter with a default value."""
+        r = self.r
+        d = b.nodes[node - 1]
+        f = b.fns[d['f'] - 1]
+        if r.random() < 0.3:
+            d['k'] = b.newk()
+        if r.random() < 0.3:
+            f['params'].append('r')
+            d['e'] = self.simple(b, scope)
+
+
 class RandomGen:
     """Seeded random programs of the effectful profile (class C01/C05 depending on flags)."""
 
     def __init__(self, rnd, maxdepth=3, loop_else=False, maxfns=3, ifexp=True, exprstmt=True, dele=True,
-                 try_=True, with_=True, calls=True, names=None, hnames=True, directives=True):
+                 try_=True, with_=True, calls=True, names=None, hnames=True, directives=True, contexts=None, lam_rate=0.08):
+        self.contexts = CONTEXTS if contexts is None else contexts
+        self.lam_rate = lam_rate        # share of statements that store / call a lambda value
         self.hnames = hnames
         self.directives = directives
         self.r = rnd
@@ -184,6 +293,7 @@ class RandomGen:
         self.with_ = with_
         self.calls = calls
         self.names = names or NAMES
+        self.cx = Contexts(rnd, self.names)
 
     def reads(self, scope, lo=0, hi=2):
         return [self.r.choice(scope) for _ in range(self.r.randint(lo, hi))]
@@ -202,6 +312,8 @@ class RandomGen:
     def value(self, scope, depth=0):
         r = self.r.random()
         b = self.b
+        if depth == 0 and self.contexts and self.r.random() < 0.12:
+            return self.cx.value(b, scope)
         if r < 0.7 or depth > 0:
             return b.T(self.reads(scope))
         if r < 0.8:
@@ -232,6 +344,10 @@ class RandomGen:
         b = self.b
         N = b.nodes
         deep = depth >= self.maxdepth
+        if self.contexts and self.calls and self.r.random() < self.lam_rate:
+            if self.cx.callable_lams(b, fn) and self.r.random() < 0.6:
+                return self.cx.lambda_call(b, fn, scope, allow_return=not infinally)
+            return self.cx.lambda_stmt(b, fn, scope)
         if r < 0.26 or deep:
             return b.node(kind='assign', fn=fn, tgt=[self.r.choice(self.names)], e=self.value(scope))
         if r < 0.30 and self.exprstmt:
@@ -286,7 +402,10 @@ class RandomGen:
             fid = b.fn('g%d' % (len(b.fns) + 1), params, fn)
             b.fns[fid - 1]['nonlocals'] = self.r.sample(self.names, self.r.randint(0, 1))
             b.fns[fid - 1]['body'] = self.block(fid, scope + params, depth + 1, False, False)
-            return b.node(kind='def', fn=fn, name=b.fns[fid - 1]['name'], f=fid)
+            nd = b.node(kind='def', fn=fn, name=b.fns[fid - 1]['name'], f=fid)
+            if self.contexts:
+                self.cx.decorate_def(b, nd, scope)
+            return nd
         if len(b.fns) > 1 and self.calls:
             cands = [f for f in range(2, len(b.fns) + 1) if b.fns[f - 1]['parent'] == fn]
             if cands:
@@ -338,6 +457,14 @@ def r_expr(p, e):
         return '(%s %s %s)' % (r_expr(p, x['args'][0]), k, r_expr(p, x['args'][1]))
     if k == 'ifexp':
         return '(%s if %s else %s)' % (r_expr(p, x['args'][1]), r_expr(p, x['args'][0]), r_expr(p, x['args'][2]))
+    if k == 'lam':
+        return '(lambda%s: %s)(%s)' % ((' ' + x['name']) if x['name'] else '', r_expr(p, x['args'][0]),
+                                      r_expr(p, x['args'][1]) if len(x['args']) == 2 else '')
+    if k == 'lamv':
+        return '(lambda%s: %s)' % ((' ' + x['name']) if x['name'] else '', r_expr(p, x['args'][0]))
+    if k == 'comp':
+        return '[%s for %s in %s%s]' % (r_expr(p, x['args'][1]), x['name'], r_expr(p, x['args'][0]),
+                                        (' if ' + r_expr(p, x['args'][2])) if len(x['args']) == 3 else '')
     raise ValueError(k)
 
 
@@ -405,7 +532,12 @@ def r_stmt(p, n, ind, out):
         emit('del %s' % d['tgt'][0])
     elif k == 'def':
         f = p['fns'][d['f'] - 1]
-        emit('def %s(%s):' % (f['name'], ', '.join(f['params'])))
+        if d['k']:
+            out.append((0, s + '@DEC(%d)' % d['k']))
+        params = list(f['params'])
+        if d['e']:      # the last parameter has a default value (evaluated when the def statement executes)
+            params[-1] = '%s=%s' % (params[-1], r_expr(p, d['e']))
+        emit('def %s(%s):' % (f['name'], ', '.join(params)))
         if f['nonlocals']:
             out.append((0, s + '    nonlocal ' + ', '.join(f['nonlocals'])))
         r_block(p, f['body'], ind + 1, out)
@@ -465,6 +597,8 @@ def enc(v):
         return ['i', v, 0]
     if isinstance(v, IList):
         return ['l', v.serial, len(v)]
+    if isinstance(v, list):       # the result of a comprehension
+        return ['c', len(v), 0]
     if isinstance(v, Obj):
         return ['o', v._serial, 0]
     if isinstance(v, E1):
@@ -520,6 +654,10 @@ class Run:
         r.serial = s
         return r
 
+    def DEC(self, k):
+        self.log.append(['DEC', k, []])
+        return lambda fn: fn
+
     def O(self):
         self.nobj += 1
         o = Obj()
@@ -540,7 +678,7 @@ class Run:
         return _CM()
 
     def ns(self):
-        return dict(T=self.T, D=self.D, I=self.I, CM=self.CM, O=self.O, E1=E1, E2=E2, set_loop_options=_no_directive)
+        return dict(T=self.T, D=self.D, I=self.I, CM=self.CM, O=self.O, DEC=self.DEC, E1=E1, E2=E2, set_loop_options=_no_directive)
 
 
 def main_args(p, inp=None):
